@@ -39,6 +39,12 @@ func RandomRefQuote(s *Stream, authLen, chainLen, extraLen int) *RefQuote {
 	s.Fill(q.QeSig[:])
 	q.Auth = s.Bytes(authLen)
 	q.Chain = s.Bytes(chainLen)
+	// certification data that ends (and begins) the way a PEM chain does, with and without the C-string terminator
+	if chainLen >= 64 && s.Intn(3) == 0 {
+		copy(q.Chain, "-----BEGIN CERTIFICATE-----\n")
+		suffix := []string{"-----END CERTIFICATE-----\n", "-----END CERTIFICATE-----\n\x00", "-----END CERTIFICATE-----\x00", "-----END CERTIFICATE-----\r\n\x00", "-----END CERTIFICATE-----\n\n", "-----END CERTIFICATE----- \x00", "\x00\x00"}[s.Intn(7)]
+		copy(q.Chain[chainLen-len(suffix):], suffix)
+	}
 	q.Extra = s.Bytes(extraLen)
 	q.FixSizes()
 	return q
